@@ -4,6 +4,8 @@ META = {
     "outside": ["completeness of a whole e2fsck -fn run: the pass 3 / 4 / 5 kernels are decided on what passes 1-2 hand them (block_found_map, inode_used/dir maps, "
                 "icounts, the dir_info table); that pass 1 / pass 2 build those tables right from the image (block ownership, duplicate blocks, reference counting) is outside",
                 "pass 3: check_root, lost+found creation, e2fsck_reconnect_file / fix_dotdot (cut), directories on a cycle of parents (GENUINE FINDING: reported by nothing)",
+                "pass 1 extent scan: trees deeper than 1, directories (PR_1_COLLAPSE_DBLOCK, dblist), bigalloc alignment, extents reaching beyond EOF, checksum failures, "
+                "leaf blocks on fixed metadata, multiply-claimed blocks (p1blocks); the extent handle is a tree-model stub (the real lib/ext2fs/extent.c decoding is C06/C09's)",
                 "pass 4: EA-inode reference consolidation (check_ea_inode), inodes larger than 128 bytes (in-inode EA magic probe), quota adjustments",
                 "pass 5: bigalloc (cluster ratio > 1), more than 3 groups, the loader's reconstruction of BLOCK_UNINIT bitmaps",
                 "htree: three-level trees (update_parents over interior nodes), siphash (hash stored in the dirent), casefolded / encrypted "
@@ -185,7 +187,7 @@ HARNESSES += _iscan()
 HARNESSES.append(
     dict(name="extscan", src="extscan.c",
          funcs=["scan_extent_node", "mark_block_used", "mark_blocks_used"],
-         configs=[{"DEPTH": 1}, {"DEPTH": 0}],
+         configs=[{"DEPTH": 1, "UN": 0}, {"DEPTH": 0, "UN": 0}, {"DEPTH": 1, "UN": 1, "_tier": "thorough"}, {"DEPTH": 1, "UN": 0, "NI_MAX": 3, "_tier": "thorough"}],
          unwind=4, unwindset=["main.%d:10" % i for i in range(16)] + ["scan_extent_node.%d:5" % i for i in range(6)] + ["vf_fill.0:4", "vf_fill.1:4", "vf_fill.2:4",
                               "vf_count_here.0:4", "fix_problem.0:4", "ext2fs_mark_generic_bmap.0:10", "ext2fs_mark_block_bitmap_range2.0:10"],
          backends=["default", "kissat"],
@@ -208,7 +210,9 @@ MANIFEST = {
             "references / with a stored link count different from the counted references (p4links); pass 3 check_directory over a 5-6 entry directory table reports exactly the "
             "parentless ends of parent chains and every '..' that differs from the parent, and its walk terminates for every parent function (p3dirs) -- but it accepts a cycle of "
             "parents silently (see below); pass 1 process_block / mark_block_used enter exactly the in-range blocks of a file into block_found_map, every block claimed twice "
-            "into block_dup_map, and raise PR_1_ILLEGAL_BLOCK_NUM for every out-of-range block (p1blocks). Directory cycles: GENUINE FINDING, e2fsck -fn exits 0 on an image with directories unreachable from the root (p3dirs LOOPCHECK, demo_p3_dir_cycle.sh). "
+            "into block_dup_map, and raise PR_1_ILLEGAL_BLOCK_NUM for every out-of-range block (p1blocks). pass 1 scan_extent_node (recursive, depth-0 and depth-1 trees, e2fsck -n): an extent tree violating the on-disk rules (index entry's ei_block != first block of its child in "
+            "either direction, leaf block or extent outside the filesystem, zero length, extents out of order or overlapping) raises at least one problem, a well-formed tree raises "
+            "nothing, is not modified and gets exactly its leaf blocks and extent blocks marked in block_found_map (extscan). Directory cycles: GENUINE FINDING, e2fsck -fn exits 0 on an image with directories unreachable from the root (p3dirs LOOPCHECK, demo_p3_dir_cycle.sh). "
             "Completeness of a whole e2fsck -fn run (pass 1 / 2 table construction) is outside.",
     "note": "Trusted: CBMC's C semantics, the harness's restatement of the on-disk format, fix_problem answering no (protocol: C01). "
             "parse_int_node is cut in htreeleaf / htreerange_leaf and decided separately in htreenode; hash and checksum primitives are stubs "
